@@ -227,6 +227,7 @@ func respguardRound4Extra(t *tr) string {
 
 	respguardCanonOf(t, &b, np, findFunc(np, "Acquire"), "sampleAcquireStmts", "`netsample.Acquire` (a pooled sample is reset COMPLETELY before it is handed out)")
 	respguardCanonOf(t, &b, np, rgFindMethod(np, "phoutAggregator", "handle"), "phoutHandleStmts", "`(*phoutAggregator).handle` (the sample goes back to the pool AFTER its line is formatted and written)")
+	b.WriteString("/-- order-free facts about `(*phoutAggregator).handle` (round 6: the literal statement list broke on the legitimate repair\n89739df): exactly one `releaseSample(<sample parameter>)`, at the top level; the line is formatted from the sample (`appendPhout`)\nand written (`….Write(`) BEFORE it; no statement after it mentions the sample -/\ndef phoutHandleFacts : List String := " + leanStrList(respguardReleaseFacts(np, rgFindMethod(np, "phoutAggregator", "handle"))) + "\n\n")
 
 	// ---------------------------------------------------------------- lib/netutil: the DNS-caching dialer
 	up := all[respguardPkgNetutil]
@@ -362,4 +363,59 @@ func respguardCallName2(n ast.Node) string {
 		return respguardCallName(e)
 	}
 	return ""
+}
+
+// respguardReleaseFacts: order-free facts about (*phoutAggregator).handle (see the doc of `phoutHandleFacts`).
+func respguardReleaseFacts(p *packages.Package, fd *ast.FuncDecl) []string {
+	if fd == nil || fd.Body == nil || fd.Type.Params == nil || len(fd.Type.Params.List) != 1 || len(fd.Type.Params.List[0].Names) != 1 {
+		return []string{"function not found"}
+	}
+	param := p.TypesInfo.ObjectOf(fd.Type.Params.List[0].Names[0])
+	mentions := func(n ast.Node) bool {
+		found := false
+		ast.Inspect(n, func(m ast.Node) bool {
+			if id, ok := m.(*ast.Ident); ok && p.TypesInfo.ObjectOf(id) == param {
+				found = true
+			}
+			return !found
+		})
+		return found
+	}
+	releases := 0
+	ast.Inspect(fd.Body, func(n ast.Node) bool {
+		if respguardCallName2(n) == "releaseSample" {
+			releases++
+		}
+		return true
+	})
+	at := -1
+	for i, st := range fd.Body.List {
+		if es, ok := st.(*ast.ExprStmt); ok && respguardCallName(es.X) == "releaseSample" {
+			if c := es.X.(*ast.CallExpr); len(c.Args) == 1 && mentions(c.Args[0]) {
+				at = i
+			}
+		}
+	}
+	formatted, written, usedAfter := false, false, false
+	for i, st := range fd.Body.List {
+		txt := oneLine(nodeString(p, st))
+		if at >= 0 && i < at {
+			if strings.Contains(txt, "appendPhout(") && mentions(st) {
+				formatted = true
+			}
+			if formatted && strings.Contains(txt, ".Write(") {
+				written = true
+			}
+		}
+		if at >= 0 && i > at && mentions(st) {
+			usedAfter = true
+		}
+	}
+	return []string{
+		fmt.Sprintf("releaseCalls=%d", releases),
+		fmt.Sprintf("releaseAtTopLevel=%v", at >= 0),
+		fmt.Sprintf("lineFormattedBeforeRelease=%v", formatted),
+		fmt.Sprintf("lineWrittenBeforeRelease=%v", written),
+		fmt.Sprintf("sampleUsedAfterRelease=%v", usedAfter),
+	}
 }
